@@ -25,7 +25,7 @@ ASSUMPTIONS = ["patches run on deep copies; the original is snapshotted", "docum
 
 def plan(tier, seed):
     n = 15 if tier == "quick" else 46
-    return [{"kind": "flags"}] + [{"n": 600 if tier == "quick" else 15000} for _ in range(n)]
+    return [{"kind": "flags"}, {"kind": "scale"}] + [{"n": 600 if tier == "quick" else 15000} for _ in range(n)]
 
 
 def edit(doc, parts, what, new=None):
@@ -217,6 +217,21 @@ def run(spec, ctx):
     r = ctx.rng
     if spec.get("kind") == "flags":
         flags_history(ctx)
+        return
+    if spec.get("kind") == "scale":
+        # edits far into long arrays (multi-digit indices, sizes around powers of two) and far down deep documents
+        for n in (9, 10, 11, 100, 101, 1000, 4097):
+            doc = {"a": [{"id": i, "10": [i]} for i in range(n)], "10": {"9": "x", "10": "y", "11": "z"}}
+            for text in ("$.a[-1]", "$.a[%d].id" % (n - 1), "$.a[9:12]" if n > 9 else "$.a[7:9]", "$.a[?@.id >= %d]" % (n - 2), "$.a[%d]['10'][0]" % (n // 2), "$['10'].*", "$.a[-2:]['10']"):
+                check_case(ctx, text, doc, "scale")
+            ctx.cell("scale", "length=%d" % n)
+        for depth in (50, 101, 150, 250):
+            v = {"leaf": ["bottom", depth], "10": depth}
+            for i in range(depth):
+                v = {"c": v, "s": i} if i % 2 else [i, v]
+            for text in ("$..leaf[0]", "$..['10']", "$..leaf"):
+                check_case(ctx, text, v, "scale")
+            ctx.cell("scale", "depth=%d" % depth)
         return
     if spec["shard"] == 0:
         for name in gen.ALL_NAMES:
